@@ -1,6 +1,225 @@
+import Mathlib.Analysis.SpecialFunctions.Gaussian.GaussianIntegral
+import PysphVerif.Lemmas.KernelIntegral
 import PysphVerif.Gen.Kernels
-/-! # C08 — property theorems (under construction) -/
+/-!
+# C08 — every SPH kernel is normalised, compactly supported and self-consistent
+
+`Gen/Kernels.lean` is regenerated on every run from `pysph/base/kernels.py`
+(one table per kernel class and admissible dimension, `all`).  The theorems
+below quantify over EVERY table in `all`, every `h > 0`, every `r` (real
+numbers), and are about the real functions the tables denote
+(`Lemmas/Kernel.lean`):
+
+  `W K r h`, `dwdq K r h`, `gradH K r h`, `gradient K i x0 x1 x2 r h`.
+
+Each is obtained from an executable check on the rational tables, discharged
+here by `decide +kernel` (the `table_…` theorems — these are what break when a
+coefficient, a power of `h`, a breakpoint or `fac` changes in the source), and a
+soundness lemma proved once for all tables.
+-/
+set_option linter.unusedSectionVars false
 namespace PysphVerif.C08
-open PysphVerif.Kernel PysphVerif.Gen.Kernels
-theorem tables_chain : ∀ K ∈ all, chainOk K = true := by decide +kernel
+open PysphVerif.Kernel PysphVerif.Poly PysphVerif.Gen.Kernels Set
+
+/-! ## facts about the generated tables (re-checked against today's source) -/
+
+/-- pieces are consecutive from `q = 0` to `radius_scale`; dimensions are 1–3;
+`kernel` and `dwdq` scale as `h^-dim`; `fac > 0` -/
+theorem table_wellformed : ∀ K ∈ all, chainOk K = true ∧ 1 ≤ K.dim ∧ K.dim ≤ 3 ∧
+    K.hpowW = K.dim ∧ K.hpowDw = K.dim ∧ 0 < K.facQ ∧ 0 < K.rmin := by decide +kernel
+
+/-- beyond the last breakpoint every polynomial is zero, and a piece that is
+closed at the edge vanishes there (value and `dwdq`) -/
+theorem table_support : ∀ K ∈ all, supportOk K = true := by decide +kernel
+
+/-- the `dwdq` coefficient lists are the formal derivatives of the `kernel`
+lists (with the `exp(-q²)` product rule for the Gaussian family) -/
+theorem table_dwdq_is_derivative : ∀ K ∈ all, derivOk K = true := by decide +kernel
+
+/-- `gradient_h = −fac·h^-(d+1)·(d·w + q·w')`, coefficient-wise -/
+theorem table_gradh : ∀ K ∈ all, gradhOk K = true := by decide +kernel
+
+/-- sign certificate: `dwdq ≤ 0` on every piece and no upward jump (super-Gaussian exempt) -/
+theorem table_dw_nonpos : ∀ K ∈ all, K.name ≠ "SuperGaussian" → signOk K = true := by
+  decide +kernel
+
+/-- spline and Wendland families: value and first derivative match at every
+breakpoint and vanish at the support edge (the Gaussian family is truncated) -/
+theorem table_pieces_C1 : ∀ K ∈ all, K.gauss = false → c1Ok K = true := by decide +kernel
+
+/-- the `rij ≤ 1e-12` guard returns zero -/
+theorem table_origin : ∀ K ∈ all, originOk K = true := by decide +kernel
+
+/-- `grad[i] = wdash · h⁻¹ · rij⁻¹ · xij[i]` -/
+theorem table_gradient_shape : ∀ K ∈ all, gradOk K = true := by decide +kernel
+
+/-- polynomial kernels: `S_d · fac · Σ_pieces ∫ q^(d-1) w(q) dq = 1` exactly, the
+powers of π cancelling (`S_1 = 2, S_2 = 2π, S_3 = 4π`) -/
+theorem table_normalised : ∀ K ∈ all, K.gauss = false → normOk K = true := by decide +kernel
+
+/-- Gaussian family: `fac = π^(-d/2)` -/
+theorem table_gauss_fac : ∀ K ∈ all, K.gauss = true → gaussFacOk K = true := by decide +kernel
+
+/-! ## the property, over ℝ -/
+
+/-- **support**: kernel, `dwdq` and all three gradient components vanish for
+`r ≥ radius_scale · h`. -/
+theorem support (K : KTable) (hK : K ∈ all) (r h : ℝ) (hh : 0 < h)
+    (hr : (K.radius : ℝ) * h ≤ r) :
+    W K r h = 0 ∧ dwdq K r h = 0 ∧
+      ∀ x0 x1 x2 : ℝ, gradient K 0 x0 x1 x2 r h = 0 ∧ gradient K 1 x0 x1 x2 r h = 0 ∧
+        gradient K 2 x0 x1 x2 r h = 0 := by
+  obtain ⟨h1, h2⟩ := W_support (table_support K hK) hh hr
+  refine ⟨h1, h2, ?_⟩
+  intro x0 x1 x2
+  by_cases hr0 : (K.rmin : ℝ) < r
+  · obtain ⟨g0, g1, g2⟩ := gradient_shape (table_gradient_shape K hK) hr0 x0 x1 x2 h
+    rw [g0, g1, g2, h2]; simp
+  · rw [not_lt] at hr0
+    exact ⟨gradient_origin (table_origin K hK) hr0 _ _ _ _ _,
+      gradient_origin (table_origin K hK) hr0 _ _ _ _ _,
+      gradient_origin (table_origin K hK) hr0 _ _ _ _ _⟩
+
+/-- **dwdq is the derivative of the kernel's shape function** at every `q` that is
+not a breakpoint. -/
+theorem dwdq_is_derivative (K : KTable) (hK : K ∈ all) (q : ℝ)
+    (hq : ∀ p ∈ K.pieces, q ≠ (p.hi : ℝ)) : HasDerivAt (wR K) (dwR K q) q :=
+  wR_hasDerivAt (table_dwdq_is_derivative K hK) hq
+
+/-- **dwdq is `h` times `dW/dr`** (for `r` above the `1e-12` guard, `r/h` not a breakpoint). -/
+theorem dwdq_is_h_dWdr (K : KTable) (hK : K ∈ all) (r h : ℝ) (hr : (K.rmin : ℝ) < r)
+    (hq : ∀ p ∈ K.pieces, r * h⁻¹ ≠ (p.hi : ℝ)) :
+    HasDerivAt (fun r' => W K r' h) (dwdq K r h * h⁻¹) r := by
+  have h1 := W_hasDerivAt_r (K := K) (r := r) (h := h) (dwdq_is_derivative K hK _ hq)
+  obtain ⟨_, _, _, hw, hd, _, _⟩ := table_wellformed K hK
+  refine h1.congr_deriv ?_
+  unfold dwdq
+  rw [if_pos hr, hw, hd]
+
+/-- **gradient_h is `dW/dh`** (`r/h` not a breakpoint). -/
+theorem gradh_is_dW_dh (K : KTable) (hK : K ∈ all) (r h : ℝ) (hh : 0 < h)
+    (hq : ∀ p ∈ K.pieces, r * h⁻¹ ≠ (p.hi : ℝ)) :
+    HasDerivAt (fun h' => W K r h') (gradH K r h) h :=
+  W_hasDerivAt_h (table_gradh K hK) hh.ne' (dwdq_is_derivative K hK _ hq)
+
+/-- **gradient shape**: above the guard the gradient is `dwdq · h⁻¹ / r · xij`, i.e.
+`dW/dr` times the unit separation vector. -/
+theorem gradient_is_dwdq_times_unit_vector (K : KTable) (hK : K ∈ all) (r h x0 x1 x2 : ℝ)
+    (hr : (K.rmin : ℝ) < r) :
+    gradient K 0 x0 x1 x2 r h = dwdq K r h * h⁻¹ / r * x0 ∧
+    gradient K 1 x0 x1 x2 r h = dwdq K r h * h⁻¹ / r * x1 ∧
+    gradient K 2 x0 x1 x2 r h = dwdq K r h * h⁻¹ / r * x2 :=
+  gradient_shape (table_gradient_shape K hK) hr x0 x1 x2 h
+
+/-- **gradient is zero at (and within `1e-12` of) `r = 0`**. -/
+theorem gradient_zero_at_origin (K : KTable) (hK : K ∈ all) (r h x0 x1 x2 : ℝ)
+    (hr : r ≤ (K.rmin : ℝ)) (i : ℕ) :
+    dwdq K r h = 0 ∧ gradient K i x0 x1 x2 r h = 0 :=
+  ⟨dwdq_origin (table_origin K hK) hr h, gradient_origin (table_origin K hK) hr i x0 x1 x2 h⟩
+
+theorem facR_pos (K : KTable) (hK : K ∈ all) : 0 < facR K := by
+  obtain ⟨_, _, _, _, _, hf, _⟩ := table_wellformed K hK
+  have : (0 : ℝ) < (K.facQ : ℝ) := by exact_mod_cast hf
+  exact mul_pos this (zpow_pos (Real.sqrt_pos.2 Real.pi_pos) _)
+
+/-- **non-increasing in `r`** (every kernel except the super-Gaussian, at every `h > 0`),
+across all breakpoints and the truncation edge. -/
+theorem kernel_nonincreasing (K : KTable) (hK : K ∈ all) (hn : K.name ≠ "SuperGaussian")
+    (h : ℝ) (hh : 0 < h) : AntitoneOn (fun r => W K r h) (Ici (0 : ℝ)) := by
+  obtain ⟨hc, _⟩ := table_wellformed K hK
+  have hanti := wR_antitone hc (table_support K hK) (table_dwdq_is_derivative K hK)
+    (table_dw_nonpos K hK hn)
+  intro x hx y hy hxy
+  have hi : 0 ≤ h⁻¹ := (inv_pos.2 hh).le
+  have hx' : (0 : ℝ) ≤ x * h⁻¹ := mul_nonneg hx hi
+  have hy' : (0 : ℝ) ≤ y * h⁻¹ := mul_nonneg hy hi
+  have := hanti (mem_Ici.2 hx') (mem_Ici.2 hy') (mul_le_mul_of_nonneg_right hxy hi)
+  exact mul_le_mul_of_nonneg_left this (mul_nonneg (facR_pos K hK).le (pow_nonneg hi _))
+
+/-- **non-negative** (every kernel except the super-Gaussian). -/
+theorem kernel_nonneg (K : KTable) (hK : K ∈ all) (hn : K.name ≠ "SuperGaussian")
+    (r h : ℝ) (hh : 0 < h) (hr : 0 ≤ r) : 0 ≤ W K r h := by
+  obtain ⟨hc, _⟩ := table_wellformed K hK
+  have hi : 0 ≤ h⁻¹ := (inv_pos.2 hh).le
+  have := wR_nonneg hc (table_support K hK) (table_dwdq_is_derivative K hK)
+    (table_dw_nonpos K hK hn) (mul_nonneg hr hi)
+  exact mul_nonneg (mul_nonneg (facR_pos K hK).le (pow_nonneg hi _)) this
+
+/-! ### spline and Wendland families: C¹, so no breakpoint needs to be excluded -/
+
+/-- `dwdq` is the derivative of the shape function at EVERY `q` (breakpoints and the support
+edge included) for the twelve polynomial tables. -/
+theorem dwdq_is_derivative_everywhere (K : KTable) (hK : K ∈ all) (hg : K.gauss = false)
+    (q : ℝ) : HasDerivAt (wR K) (dwR K q) q :=
+  wR_hasDerivAt_C1 (table_wellformed K hK).1 (table_dwdq_is_derivative K hK)
+    (table_pieces_C1 K hK hg) q
+
+theorem dwdq_is_h_dWdr_everywhere (K : KTable) (hK : K ∈ all) (hg : K.gauss = false) (r h : ℝ)
+    (hr : (K.rmin : ℝ) < r) : HasDerivAt (fun r' => W K r' h) (dwdq K r h * h⁻¹) r := by
+  have h1 := W_hasDerivAt_r (K := K) (r := r) (h := h) (dwdq_is_derivative_everywhere K hK hg _)
+  obtain ⟨_, _, _, hw, hd, _, _⟩ := table_wellformed K hK
+  refine h1.congr_deriv ?_
+  unfold dwdq
+  rw [if_pos hr, hw, hd]
+
+theorem gradh_is_dW_dh_everywhere (K : KTable) (hK : K ∈ all) (hg : K.gauss = false) (r h : ℝ)
+    (hh : 0 < h) : HasDerivAt (fun h' => W K r h') (gradH K r h) h :=
+  W_hasDerivAt_h (table_gradh K hK) hh.ne' (dwdq_is_derivative_everywhere K hK hg _)
+
+/-! ### normalisation (radial form: `∫_{ℝ^d} W = S_d ∫₀^∞ r^(d-1) W dr`, the polar-coordinate
+step itself is not mechanised) -/
+
+/-- **normalised**: `S_d · fac · ∫₀^R q^(d-1) w(q) dq = 1` for every polynomial kernel table,
+where `w` is the (piece-wise, `lookup`-based) shape function. -/
+theorem normalised (K : KTable) (hK : K ∈ all) (hg : K.gauss = false) :
+    sphereR K.dim * facR K * ∫ x in (0 : ℝ)..(K.radius : ℝ), x ^ (K.dim - 1) * wR K x = 1 :=
+  radial_normalised (table_wellformed K hK).1 (table_normalised K hK hg)
+
+/-- … and at every smoothing length: `S_d · ∫₀^{R·h} r^(d-1) W(r,h) dr = 1`. -/
+theorem normalised_every_h (K : KTable) (hK : K ∈ all) (hg : K.gauss = false) (h : ℝ)
+    (hh : 0 < h) :
+    sphereR K.dim * ∫ r in (0 : ℝ)..((K.radius : ℝ) * h), r ^ (K.dim - 1) * W K r h = 1 := by
+  obtain ⟨_, hd1, _, hw, _, _, _⟩ := table_wellformed K hK
+  rw [W_radial_integral K hw hd1 hh, ← mul_assoc]
+  exact normalised K hK hg
+
+/-- Gaussian family: `fac · π^(d/2) = 1`. -/
+theorem gauss_family_fac (K : KTable) (hK : K ∈ all) (hg : K.gauss = true) :
+    facR K * Real.sqrt Real.pi ^ K.dim = 1 := by
+  have h := table_gauss_fac K hK hg
+  simp only [gaussFacOk, Bool.and_eq_true, beq_iff_eq] at h
+  have hs : Real.sqrt Real.pi ≠ 0 := (Real.sqrt_pos.2 Real.pi_pos).ne'
+  unfold facR
+  rw [h.1.2, h.2, zpow_neg, zpow_natCast]
+  simp [hs]
+
+/-- Gaussian family: the UNTRUNCATED kernel `fac·exp(-|x|²)` has unit mass over `ℝ^d`
+(`exp(-|x|²) = Π exp(-xᵢ²)`, so the mass is `fac · (∫ exp(-x²))^d`); the code truncates it at
+`q = 3` (`table_support`), which removes the stated tail. -/
+theorem gaussian_untruncated_mass (K : KTable) (hK : K ∈ all) (hg : K.gauss = true) :
+    facR K * (∫ x : ℝ, Real.exp (-x ^ 2)) ^ K.dim = 1 := by
+  have h := integral_gaussian 1
+  simp only [neg_mul, one_mul, div_one] at h
+  rw [h]
+  exact gauss_family_fac K hK hg
+
+/-! ## non-vacuity: the tables are not trivial -/
+
+example : CubicSpline_2 ∈ all ∧ (CubicSpline_2.pieceAt (3/2)).w = [2, -3, 3/2, -1/4] ∧
+    eval (CubicSpline_2.pieceAt (3/2)).w (3/2) = 1/32 := by decide +kernel
+
+example : all.length = 21 ∧ (all.filter (fun K => K.gauss)).length = 6 ∧
+    (all.filter (fun K => K.name == "SuperGaussian")).length = 3 := by decide +kernel
+
+/-- the breakpoint hypothesis of `dwdq_is_derivative` / `gradh_is_dW_dh` is satisfiable:
+`q = 1/2` is interior to the first piece of the 1-D cubic spline -/
+example : CubicSpline_1 ∈ all ∧ ∀ p ∈ CubicSpline_1.pieces, (1 / 2 : ℝ) ≠ (p.hi : ℝ) := by
+  refine ⟨by decide +kernel, ?_⟩
+  intro p hp
+  simp only [CubicSpline_1, List.mem_cons, List.not_mem_nil, or_false] at hp
+  rcases hp with rfl | rfl <;> norm_num
+
+/-- the exemption is needed: the super-Gaussian's polynomial factor is negative at `q = 2` -/
+example : eval (SuperGaussian_3.pieceAt 2).w 2 = -3/2 := by decide +kernel
+
 end PysphVerif.C08
